@@ -92,6 +92,7 @@ func decodeControl(packet *ber.Packet) (Control, error) {
 		ControlType = ""
 		Criticality = false
 		value       *ber.Packet
+		ok          bool
 	)
 	if packet == nil {
 		return nil, fmt.Errorf("%s: packet is nil: %w", op, ErrInvalidParameter)
@@ -104,10 +105,14 @@ func decodeControl(packet *ber.Packet) (Control, error) {
 	case 1:
 		// just type, no critically or value
 		packet.Children[0].Description = "Control Type (" + ControlTypeMap[ControlType] + ")"
-		ControlType = packet.Children[0].Value.(string)
+		if ControlType, ok = packet.Children[0].Value.(string); !ok {
+			return nil, fmt.Errorf("%s: control type is not a string: %w", op, ErrInvalidParameter)
+		}
 	case 2:
 		packet.Children[0].Description = "Control Type (" + ControlTypeMap[ControlType] + ")"
-		ControlType = packet.Children[0].Value.(string)
+		if ControlType, ok = packet.Children[0].Value.(string); !ok {
+			return nil, fmt.Errorf("%s: control type is not a string: %w", op, ErrInvalidParameter)
+		}
 
 		// Children[1] could be criticality or value (both are optional)
 		// duck-type on whether this is a boolean
@@ -120,10 +125,14 @@ func decodeControl(packet *ber.Packet) (Control, error) {
 		}
 	case 3:
 		packet.Children[0].Description = "Control Type (" + ControlTypeMap[ControlType] + ")"
-		ControlType = packet.Children[0].Value.(string)
+		if ControlType, ok = packet.Children[0].Value.(string); !ok {
+			return nil, fmt.Errorf("%s: control type is not a string: %w", op, ErrInvalidParameter)
+		}
 
 		packet.Children[1].Description = "Criticality"
-		Criticality = packet.Children[1].Value.(bool)
+		if Criticality, ok = packet.Children[1].Value.(bool); !ok {
+			return nil, fmt.Errorf("%s: control criticality is not a boolean: %w", op, ErrInvalidParameter)
+		}
 
 		packet.Children[2].Description = "Control Value"
 		value = packet.Children[2]
@@ -153,10 +162,17 @@ func decodeControl(packet *ber.Packet) (Control, error) {
 			return nil, fmt.Errorf("%s: paging control value must have a least 1 child: %w", op, ErrInvalidParameter)
 		}
 		value = value.Children[0]
+		if len(value.Children) < 2 {
+			return nil, fmt.Errorf("%s: paging control value must have a size and a cookie: %w", op, ErrInvalidParameter)
+		}
 		value.Description = "Search Control Value"
 		value.Children[0].Description = "Paging Size"
 		value.Children[1].Description = "Cookie"
-		c.PagingSize = uint32(value.Children[0].Value.(int64))
+		pagingSize, ok := value.Children[0].Value.(int64)
+		if !ok {
+			return nil, fmt.Errorf("%s: paging size is not an integer: %w", op, ErrInvalidParameter)
+		}
+		c.PagingSize = uint32(pagingSize)
 		c.Cookie = value.Children[1].Data.Bytes()
 		value.Children[1].Value = c.Cookie
 		return c, nil
@@ -191,6 +207,9 @@ func decodeControl(packet *ber.Packet) (Control, error) {
 		for _, child := range sequence.Children {
 			if child.Tag == 0 {
 				// Warning
+				if len(child.Children) == 0 {
+					return nil, fmt.Errorf("%s: behera warning must have a child: %w", op, ErrInvalidParameter)
+				}
 				warningPacket := child.Children[0]
 				val, err := ber.ParseInt64(warningPacket.Data.Bytes())
 				if err != nil {
@@ -246,7 +265,9 @@ func decodeControl(packet *ber.Packet) (Control, error) {
 		c.ControlType = ControlType
 		c.Criticality = Criticality
 		if value != nil {
-			c.ControlValue = value.Value.(string)
+			if c.ControlValue, ok = value.Value.(string); !ok {
+				return nil, fmt.Errorf("%s: control value is not a string: %w", op, ErrInvalidParameter)
+			}
 		}
 		return c, nil
 	}
